@@ -22,8 +22,7 @@ type vfC15Case struct {
 func vfC15Gen(rt *rapid.T) vfC15Case {
 	c := vfC15Case{N: 3000, Dim: 16, NQ: 100}
 	c.Seed = rapid.Uint64().Draw(rt, "data_seed")
-	// the shard / case index picks the metric round-robin so that even 3 cases cover all three
-	c.Metric = string(rapid.SampledFrom(vfMetrics).Draw(rt, "metric"))
+	c.Metric = "all"
 	c.N = rapid.IntRange(2700, 3300).Draw(rt, "n")
 	return c
 }
@@ -41,7 +40,25 @@ func vfGaussianSet(seed uint64, n, dim int) [][]float32 {
 	return out
 }
 
+// vfC15ID: ids are not in insertion order (multiplication by an odd constant permutes uint32)
+func vfC15ID(i int) uint32 { return uint32(i+1) * 2654435761 }
+
+// every data set is measured under all three metrics ("all"); a replay may name one
 func vfC15Run(c vfC15Case, ctx *vfCtx) *vfViolation {
+	if c.Metric != "all" && c.Metric != "" {
+		return vfC15RunMetric(c, ctx)
+	}
+	for _, m := range vfMetrics {
+		cm := c
+		cm.Metric = string(m)
+		if v := vfC15RunMetric(cm, ctx); v != nil {
+			return v
+		}
+	}
+	return nil
+}
+
+func vfC15RunMetric(c vfC15Case, ctx *vfCtx) *vfViolation {
 	kind := DistanceKind(c.Metric)
 	if c.N < 500 || c.Dim < 8 || c.Dim%8 != 0 || c.NQ < 10 {
 		return nil // outside the stated distribution (hand-edited replay)
@@ -78,7 +95,7 @@ func vfC15Run(c vfC15Case, ctx *vfCtx) *vfViolation {
 	nodes := func() []VectorNode {
 		out := make([]VectorNode, len(data))
 		for i, v := range data {
-			out[i] = *NewVectorNodeWithID(uint32(i+1), vfCloneF32(v))
+			out[i] = *NewVectorNodeWithID(vfC15ID(i), vfCloneF32(v))
 		}
 		return out
 	}
@@ -180,7 +197,7 @@ func vfC15Run(c vfC15Case, ctx *vfCtx) *vfViolation {
 						return 0, err
 					}
 					for _, id := range ids {
-						if id == uint32(i+1) {
+						if id == vfC15ID(i) {
 							h++
 							break
 						}
